@@ -76,17 +76,21 @@ func c13New(kind int) c13Box {
 	case 5:
 		c := new(ap.OrderedCollectionPage)
 		return c13Box{func(x ap.Item) { _ = c.Append(x) }, func(x ap.Item) bool { return c.Contains(x) }, func(x ap.Item) { c.OrderedItems.Remove(x) }, c.Count, func() ap.ItemCollection { return c.Collection() }}
-	case 6:
+	case 6: // (the view kinds also start with a totalItems that says something else: Count is the number of members)
 		c := new(ap.Collection)
+		c.TotalItems = 7
 		return c13ViewBox(c, func(x ap.Item) { _ = c.Append(x) }, func(x ap.Item) bool { return c.Contains(x) }, c.Count)
 	case 7:
 		c := new(ap.CollectionPage)
+		c.TotalItems = 7
 		return c13ViewBox(c, func(x ap.Item) { _ = c.Append(x) }, func(x ap.Item) bool { return c.Contains(x) }, c.Count)
 	case 8:
 		c := new(ap.OrderedCollection)
+		c.TotalItems = 7
 		return c13ViewBox(c, func(x ap.Item) { _ = c.Append(x) }, func(x ap.Item) bool { return c.Contains(x) }, c.Count)
 	default:
 		c := new(ap.OrderedCollectionPage)
+		c.TotalItems = 7
 		return c13ViewBox(c, func(x ap.Item) { _ = c.Append(x) }, func(x ap.Item) bool { return c.Contains(x) }, c.Count)
 	}
 }
